@@ -1,7 +1,7 @@
 (* C14 — the UI never crashes or hangs and always leaves terminal and system clean (PARTIAL: the logic core).
    Statements only; proofs live in proofs/TermProofs.v.  What is NOT here: panic- and hang-freedom of the real
    renderer / key decoder (explored by the check, not proved). *)
-From Fzf Require Import Prelude TermSpec TermModel TermProofs StartSpec StartModel StartProofs MouseSpec MouseModel MouseProofs.
+From Fzf Require Import Prelude TermSpec TermModel TermProofs StartSpec StartModel StartProofs MouseSpec MouseModel MouseProofs JumpSpec JumpModel JumpProofs.
 Open Scope Z_scope.
 
 (* For EVERY configuration (fullscreen or --height, --no-clear, --no-mouse, --no-input, any window height,
@@ -211,3 +211,38 @@ Example mouse_geom_ok : geom_ok (mkGeom 1 2 5 10 2 0 8) /\
   mouse_run (mkGeom 1 2 5 10 2 0 8) mst0 [mkMev 3 2 true false 0; mkMev 11 2 true false 0; mkMev 11 7 true false 0; mkMev 11 7 false false 0; mkMev 4 1 true false 0]
   = [Row 3; Row 3; Stop; Stop; Row 4].
 Proof. split; [unfold geom_ok; cbn; lia | vm_compute; reflexivity]. Qed.
+
+(* Jump mode (src/terminal.go: the label part of printItem, `if index < len(t.jumpLabels) { ... t.jumpLabels[index:index+1] ...}`,
+   and the index test of the key handler): for EVERY label string (empty included), every pointer width and every number of
+   visible items -- fewer than, as many as, or more than there are labels -- drawing the frame is defined (every slice of
+   the label string lies inside it) and gives one entry per visible row.
+   NOT covered: everything else printItem does with the row (widths, colours, multi-line items); the model is tied to the
+   Go code by the jump sessions of the check only (printItem needs a window; no hook reaches it). *)
+Theorem jump_label_in_bounds : forall labels pointerLen visible,
+  exists r, jump_frame labels pointerLen visible = Ok r /\ length r = visible /\
+            Forall (jread_safe (length labels)) (jump_reads_with Nat.ltb (length labels) visible).
+Proof. exact jump_label_in_bounds_proof. Qed.
+Print Assumptions jump_label_in_bounds.
+
+(* the guard must be strict: with `index <= len` the frame is defined exactly when no more items are visible than there are
+   labels, and is a slice-bounds panic otherwise *)
+Theorem jump_guard_needed : forall labels pointerLen visible,
+  (is_ok (jump_frame_le labels pointerLen visible) = true <-> (visible <= length labels)%nat) /\
+  ((length labels < visible)%nat -> jump_frame_le labels pointerLen visible = Err Panic).
+Proof. exact jump_guard_needed_proof. Qed.
+Print Assumptions jump_guard_needed.
+
+(* the key: a label picks a row that is on the screen and holds an item, and it is the row that carries this label *)
+Theorem jump_pick_in_bounds : forall labels key rows count offset cy,
+  jump_pick labels key rows count offset = Some cy ->
+  jpick_safe rows count offset cy /\ nth_error labels (cy - offset) = Some key.
+Proof. exact jump_pick_in_bounds_proof. Qed.
+Print Assumptions jump_pick_in_bounds.
+
+(* non-vacuity: three labels, five visible items, pointer of width 2: rows 0..2 carry a label, rows 3 and 4 none; the
+   `<=` variant fails on this frame and not on a frame of three rows; key `b` picks the second visible row *)
+Example jump_nonvacuous :
+  jump_frame [97; 98; 99] 2 5 = Ok [Some [97; 32]; Some [98; 32]; Some [99; 32]; None; None] /\
+  jump_frame_le [97; 98; 99] 2 5 = Err Panic /\ is_ok (jump_frame_le [97; 98; 99] 2 3) = true /\
+  jump_pick [97; 98; 99] 98 5 10 4 = Some 5%nat /\ jump_pick [97; 98; 99] 99 2 10 4 = None.
+Proof. vm_compute. repeat split; reflexivity. Qed.
